@@ -659,7 +659,10 @@ func (u *Unit) havocDesignator(env *Env, st *State, d string) {
 		case *types.Slice:
 			h := u.arrHeap(t.Elem())
 			nr := u.enc.freshConst("rowh", "(Array Int "+u.enc.sortOf(t.Elem())+")")
-			u.heapSet(st, h, sto(u.heapCur(st, h), app("sl_base", v.T), nr))
+			// (a nil slice has no elements: nothing is written)
+			cur := u.heapCur(st, h)
+			base := app("sl_base", v.T)
+			u.heapSet(st, h, sto(cur, base, ite(eq(base, "0"), sel(cur, base), nr)))
 		default:
 			u.unsup("assigns %q: not a map or slice", d)
 		}
